@@ -220,7 +220,7 @@ PROPS["C01"] = {
 }
 
 C15_QUICK = ["c15_wait_consumed", "c15_wait_generated", "c15_data_dependent_counts", "c15_loop_words_have_no_bus_access", "c15_canary",
-             "c15_nop", "c15_push", "c15_pop", "c15_call", "c15_reti", "c15_neg", "c15_sub", "c15_and", "c15_xor", "c15_src_inc", "c15_src_dinc",
+             "c15_nop", "c15_push", "c15_pop", "c15_call", "c15_reti", "c15_neg", "c15_add_s0", "c15_add_s1", "c15_add_s2", "c15_add_s3", "c15_adc_s0", "c15_adc_s1", "c15_adc_s2", "c15_adc_s3", "c15_sub_s0", "c15_sub_s1", "c15_sub_s2", "c15_sub_s3", "c15_and_s0", "c15_and_s1", "c15_and_s2", "c15_and_s3", "c15_or_s0", "c15_or_s1", "c15_or_s2", "c15_or_s3", "c15_xor_s0", "c15_xor_s1", "c15_xor_s2", "c15_xor_s3", "c15_src_inc", "c15_src_dinc",
              "c15_mov_ind", "c15_mov_dinc", "c15_cmp_inc", "c15_bitt_dinc", "c15_ldsp", "c15_bits_ind", "c15_bitc_dinc"]
 
 
